@@ -237,6 +237,46 @@ func (pc *posChecker) span(at string, s, e ast.SourcePos) {
 	}
 }
 
+// end checks an exclusive end position: "the location after the last character". When the last character of the
+// element is a one-column ASCII character (not a tab, CR or newline) that is, by the column rule, the line of that
+// character and its column plus one — whatever the element contains before it (tabs, multi-byte characters).
+func (pc *posChecker) end(at string, s ast.SourcePos, raw string, e ast.SourcePos) {
+	if pc.bad || len(raw) == 0 {
+		return
+	}
+	last := s.Offset + len(raw) - 1
+	if last < 0 || last >= len(pc.data) || last > pc.lim {
+		return
+	}
+	c := pc.data[last]
+	if c >= 0x80 || c < 0x20 || c == 0x7f {
+		return
+	}
+	if !pc.pt.bound[last] || !pc.pt.colOK[last] {
+		return
+	}
+	if e.Line != pc.pt.line[last] || e.Col != pc.pt.col[last]+1 {
+		pc.bad = true
+		holds := "plain ASCII"
+		switch {
+		case strings.ContainsRune(raw, '\t'):
+			holds = "a tab"
+		case strings.ContainsAny(raw, "\r\n"):
+			holds = "a line break"
+		default:
+			for i := 0; i < len(raw); i++ {
+				if raw[i] >= 0x80 {
+					holds = "a multi-byte character"
+					break
+				}
+			}
+		}
+		pc.r.Violation("pos.end-mismatch", fmt.Sprintf("End() of a %s that holds %s is not the position after its last character", strings.SplitN(at, " ", 2)[0], holds), pc.id,
+			pc.witness(map[string]any{"observed_at": at, "start_offset": s.Offset, "raw_text": raw, "reported_end": fmt.Sprintf("%d:%d", e.Line, e.Col),
+				"reference_end": fmt.Sprintf("%d:%d", pc.pt.line[last], pc.pt.col[last]+1)}))
+	}
+}
+
 // checkText parses text (never aborting) and checks every observable position.
 // Returns the number of positions compared.
 func checkPositions13(r *vlib.Run, id string, text []byte, allNodes bool) (npos int, lexedAll bool, observed bool) {
@@ -300,6 +340,12 @@ func checkPositions13(r *vlib.Run, id string, text []byte, allNodes bool) (npos 
 		s, e := info.Start(), info.End()
 		pc.check(at+"-start", s)
 		pc.span(at, s, e)
+		if at == "token" {
+			// NodeInfo.End is documented as exclusive; Comment.End is the position OF the last character
+			pc.end(at, s, info.RawText(), e)
+		} else {
+			pc.check("comment-end", e)
+		}
 		npos++
 	}
 	// every AST node
@@ -313,6 +359,7 @@ func checkPositions13(r *vlib.Run, id string, text []byte, allNodes bool) (npos 
 				s, e := info.Start(), info.End()
 				pc.check("node-start", s)
 				pc.span(fmt.Sprintf("node %T", n), s, e)
+				pc.end("node", s, info.RawText(), e)
 				npos++
 				return nil
 			}))
